@@ -416,7 +416,9 @@ def write_evidence(prop, tier, seed, level, agg, wall, extra_cov=None, violation
         "repo_tree_digest": repo_tree_digest(),
         "real_vs_stub": {
             "real": ["claripy ASTs/simplifier/frontends/mixins/backends", "libz3 + z3py", "CPython refcount/gc", "pickle"],
-            "simulator_owned": ["decision that Z3 gives up (z3.Solver.check/reason_unknown substituted)",
+            "simulator_owned": ["decision that Z3 gives up (z3.Solver.check/reason_unknown substituted; kind rlimit_real: the "
+                                "real check runs under a Z3 resource budget and Z3 itself answers unknown)",
+                                "identity hash of annotation objects without __hash__ (serial numbers; injected address reuse)",
                                 "hash order of solver objects (serial-number hash, salted per run)",
                                 "PYTHONHASHSEED per group", "LRU size / reuse_z3_solver knobs"],
         },
